@@ -76,6 +76,13 @@ func genC08(seed uint64) *Plan {
 	pr.RoleProb = 0.3
 	pr.W = map[string]int{"announce": 10, "withdraw": 4, "wait": 1, "static_add": 2, "static_del": 1}
 	g := newGen("C08", seed, pr)
+	if g.r.Chance(0.4) {
+		// sessions that come up (again) while the Loc-RIB already holds several paths per prefix:
+		// the initial dump to a new Adj-RIB-Out has to make the same selection as the incremental updates
+		pr.W["peer_notify"], pr.W["reconnect"] = 1, 2
+		pr.ReconnectProb = 0.8
+		g.prof = pr
+	}
 	g.connectAll()
 	g.workload()
 	return g.plan
